@@ -4923,9 +4923,11 @@ class Frame(ContainerOperand):
         column_iloc = self._columns._loc_to_iloc(column)
 
         if drop:
-            blocks = TypeBlocks.from_blocks(
-                    self._blocks._drop_blocks(column_key=column_iloc))
             columns = self._columns._drop_iloc(column_iloc)
+            blocks = TypeBlocks.from_blocks(
+                    self._blocks._drop_blocks(column_key=column_iloc),
+                    shape_reference=(self._blocks._shape[0], len(columns)), # no block remains when every column is moved
+                    )
             own_data = True
             own_columns = True
         else:
@@ -5007,9 +5009,11 @@ class Frame(ContainerOperand):
 
 
         if drop:
-            blocks = TypeBlocks.from_blocks(
-                    blocks_src._drop_blocks(column_key=column_iloc))
             columns = self._columns._drop_iloc(column_iloc)
+            blocks = TypeBlocks.from_blocks(
+                    blocks_src._drop_blocks(column_key=column_iloc),
+                    shape_reference=(blocks_src._shape[0], len(columns)), # no block remains when every column is moved
+                    )
             own_data = True
             own_columns = True
         else:
